@@ -475,8 +475,8 @@ func (r *runner) freedoms(g *rg.G, id string, rnd *engine.Rng) {
 		}
 	}
 	// Graph6Decode with the optional header
-	if n <= 62 && rnd.Bool(0.5) {
-		s := codec.G6Header + g.G6()
+	if n <= maxFullN && rnd.Bool(0.5) {
+		s := codec.G6Header + graph6Of(g)
 		caseKey := "Graph6Decode|" + strconv.Quote(s)
 		detail := map[string]interface{}{"api": "Graph6Decode", "graph6": s}
 		var h *graph.DenseGraph
